@@ -561,6 +561,7 @@ Definition run (tag : Z) (args : list Z) : list Z :=
   | 90, _ => ANY
   | 95, _ => ANY
   | 96, _ => ANY
+  | 97, _ => ANY
   | _, _ => BAD
   end.
 
@@ -608,6 +609,7 @@ Definition spec (tag : Z) (args : list Z) : list Z :=
   | 90, _ => [0]
   | 95, _ => [1]
   | 96, _ => [1]
+  | 97, _ => [1]
   | _, _ => BAD
   end.
 
